@@ -497,6 +497,19 @@ def run_check(prop, tier, seed, t0):
             for k, v in m2.get("per_signature", {}).items():
                 m["per_signature"][k] = m["per_signature"].get(k, 0) + v
         extra = None
+        if prop == "C09":
+            # command-line leg: the range bounds reach the library as written (files and stdin)
+            import c09cli
+            build_cli()
+            ev, cf, inc, cnt = c09cli.run(tier, seed)
+            m["evaluations"] += ev
+            m["findings"].extend(cf)
+            m["inconclusive"] += inc
+            m["counters"].update(cnt)
+            for f in cf:
+                m["per_signature"][f["signature"]] = m["per_signature"].get(f["signature"], 0) + 1
+            extra = {"cli_range_leg": {"evaluations": ev, "findings": len(cf),
+                                       "what": "4 programs x (no bound, start only, end only, both, inverted, beyond the text) x (file argument, stdin): file contents / stdout equal the library's output for the same range"}}
         if tier == "thorough" and prop in ("C04", "C07") and os.environ.get("SV_NO_MIRI") != "1":
             judged, mf, notes = miri_leg()
             m["findings"].extend(mf)
@@ -526,6 +539,13 @@ def run_check(prop, tier, seed, t0):
 def replay(path):
     v = json.load(open(path))
     prop = v.get("property", "")
+    if prop == "C09" and "cli_range_case" in v.get("case", {}):
+        import c09cli
+        build_harness()
+        build_cli()
+        findings = c09cli.replay(v["case"])
+        print(json.dumps({"findings": findings}, indent=1, default=str))
+        return 1 if findings else 0
     if prop in LIB_PROPS:
         build_harness()
         p = subprocess.run([SV, "replay", path], env=dict(os.environ, SV_REPO=REPO))
